@@ -573,7 +573,12 @@ def bfile_part(chk, drv, drv_asan, model):
             impl = " ".join(x for x in lans.split(" ") if x != "BADPOS" and not x.startswith("OTHER:"))
             if m != impl:
                 if failed:
+                    # the scanner failed somewhere in this text: the dump (which unescapes every scalar and walks every node)
+                    # and the loader (which skips what it rejects) may notice the failure at different entries
                     stats["disagreements_on_failed_streams"] += 1
+                    ex = chk.notes.setdefault("disagreements_on_failed_streams_examples", [])
+                    if len(ex) < 4:
+                        ex.append(dict(case=key, input_hex=data.hex()[:1600], tree=tans[:300], implementation=lans, model=m))
                 else:
                     stats["disagreements"] += 1
                     dis.append(dict(case=key, input_head=data[:400].decode("latin1"), input_hex=data.hex() if len(data) < 3000 else None, tree=tans[:600], implementation=lans, model=m))
